@@ -51,6 +51,7 @@ class Module:
         self.assigns: dict[str, ast.expr] = {}
         self.assign_nodes: dict[str, ast.stmt] = {}
         self._index()
+        self.constants: dict[str, object] = self._constants()
 
     # the package a relative import is relative to
     def _package(self) -> str:
@@ -83,6 +84,35 @@ class Module:
             elif isinstance(node, ast.AnnAssign) and isinstance(node.target, ast.Name) and node.value is not None:
                 self.assigns[node.target.id] = node.value
                 self.assign_nodes[node.target.id] = node
+
+    def _constants(self) -> dict[str, object]:
+        """Module-level names bound exactly once, to a scalar literal, and never declared ``global`` in the module: named constants."""
+        bound: dict[str, int] = {}
+        for node in ast.walk(self.tree):
+            if isinstance(node, ast.Global):
+                for n in node.names:
+                    bound[n] = bound.get(n, 0) + 2
+        for node in self._toplevel(self.tree.body):
+            for sub in ast.walk(node) if not isinstance(node, (ast.FunctionDef, ast.AsyncFunctionDef, ast.ClassDef)) else [node]:
+                names = []
+                if isinstance(sub, (ast.FunctionDef, ast.AsyncFunctionDef, ast.ClassDef)):
+                    names = [sub.name]
+                elif isinstance(sub, ast.Name) and isinstance(sub.ctx, (ast.Store, ast.Del)):
+                    names = [sub.id]
+                elif isinstance(sub, ast.alias):
+                    names = [(sub.asname or sub.name).split(".")[0]]
+                for n in names:
+                    bound[n] = bound.get(n, 0) + 1
+        out: dict[str, object] = {}
+        for name, v in self.assigns.items():
+            if bound.get(name) != 1:
+                continue
+            if isinstance(v, ast.Constant) and (v.value is None or isinstance(v.value, (bool, int, float, str))):
+                out[name] = v.value
+            elif isinstance(v, ast.UnaryOp) and isinstance(v.op, ast.USub) and isinstance(v.operand, ast.Constant) \
+                    and isinstance(v.operand.value, (int, float)) and not isinstance(v.operand.value, bool):
+                out[name] = -v.operand.value
+        return out
 
     def _toplevel(self, body: list[ast.stmt]) -> Iterator[ast.stmt]:
         """Top-level statements, looking through ``if``/``try`` used for version switches."""
@@ -276,19 +306,43 @@ class Program:
 
     PKG = PKG
 
-    def inlinable(self, ref: "FuncRef") -> bool:
-        """A package function that NO rule knows by name (its name occurs nowhere in the rule sources), is not a generator and is short:
-        the term layer reads such helpers through.  The vocabulary is computed once from the text of icgsa/rules and icgsa/bounds_domain."""
+    def vocabulary(self) -> set[str]:
+        """Every identifier that occurs in the rule sources: what the rules know by name."""
         cache = self.__dict__.setdefault("_inl_cache", {})
         if "__vocab__" not in cache:
             import re
             here = Path(__file__).resolve().parent
             text = "\n".join(p.read_text() for p in list((here / "rules").glob("*.py")) + [here / "bounds_domain.py", here / "bitalg.py"])
             cache["__vocab__"] = set(re.findall(r"[A-Za-z_][A-Za-z_0-9]*", text))
+        return cache["__vocab__"]
+
+    def named_constant(self, qual: str) -> tuple[bool, object]:
+        """(True, value) when ``qual`` is a package module-level named constant (bound once to a scalar literal, never declared global,
+        never stored through a module attribute anywhere in the package) that no rule knows by name: the term layer reads it through."""
+        cache = self.__dict__.setdefault("_const_cache", {})
+        if qual in cache:
+            return cache[qual]
+        res: tuple[bool, object] = (False, None)
+        q = self.chase(qual)
+        mod, _, name = q.rpartition(".")
+        m = self.modules.get(mod)
+        if m is not None and name in m.constants and name not in self.vocabulary() and not name.startswith("__"):
+            if "__attr_stores__" not in cache:
+                cache["__attr_stores__"] = {n.attr for mm in self.modules.values() for n in ast.walk(mm.tree)
+                                            if isinstance(n, ast.Attribute) and isinstance(n.ctx, (ast.Store, ast.Del))}
+            if name not in cache["__attr_stores__"]:
+                res = (True, m.constants[name])
+        cache[qual] = res
+        return res
+
+    def inlinable(self, ref: "FuncRef") -> bool:
+        """A package function that NO rule knows by name (its name occurs nowhere in the rule sources), is not a generator and is short:
+        the term layer reads such helpers through.  The vocabulary is computed once from the text of icgsa/rules and icgsa/bounds_domain."""
+        cache = self.__dict__.setdefault("_inl_cache", {})
         if ref.qual in cache:
             return cache[ref.qual]
         n = ref.node
-        ok = n.name not in cache["__vocab__"] and not n.name.startswith("__") and not n.decorator_list and \
+        ok = n.name not in self.vocabulary() and not n.name.startswith("__") and not n.decorator_list and \
             not any(isinstance(x, (ast.Yield, ast.YieldFrom, ast.Global, ast.Nonlocal, ast.AsyncFunctionDef, ast.ClassDef, ast.Lambda and ast.FunctionDef)) for x in ast.walk(n) if x is not n) \
             and sum(1 for x in ast.walk(n) if isinstance(x, ast.stmt)) <= 25
         cache[ref.qual] = ok
